@@ -31,6 +31,22 @@ func loadsField(v ssa.Value, st, field string) bool {
 }
 
 func runC28(c *Ctx) {
+	c.Rule("C28.PUSH", "PASS: in CreatePolicy and UpdatePolicy every path from storing the policy in the cache to a nil-error return passes updateTrackersForToken — unconditionally, also for a token's first policy (its limiters already exist with the config defaults and ignore the limit argument once created)")
+	for _, name := range []string{"CreatePolicy", "UpdatePolicy"} {
+		fn := c.P.Func("(*internal/governance.Manager)." + name)
+		if fn == nil {
+			c.Unk("C28.PUSH", name+"|function", 0, "function not found")
+			continue
+		}
+		target := names("(*internal/governance.Manager).updateTrackersForToken")
+		stop := c.P.stopFn(target, 2, map[*ssa.Function]bool{})
+		bad := 0
+		for _, e := range successExits(pathsAvoiding(fn, nil, stop)) {
+			_ = e
+			bad++
+		}
+		c.Check(bad == 0, "C28.PUSH", name+"|limits-pushed-on-every-success-path", fn.Pos(), "every success path pushes the new limits into the live trackers", fmt.Sprintf("%s has %d success path(s) that never (or only conditionally) call updateTrackersForToken: a token's first policy does not reach its already existing limiters and quota tracker, and the old (default) limits keep being enforced", name, bad))
+	}
 	p := c.P
 	c.Rule("C28.LOCK", "LOCK: every access to a field of slidingWindowCounter / quotaTracker outside the constructors happens with that object's mu held; helpers that do not lock are called only with it held")
 	c.Rule("C28.CMP", "PASS: in Allow / AllowQuery the edge taken when counter >= limit cannot reach the counter's increment (a test that admits counter == limit lets the count reach limit+1)")
